@@ -247,3 +247,38 @@ Section ParseConcat.
       apply (loop_concat Hsk); [discriminate | exact Ha | exact Hb].
   Qed.
 End ParseConcat.
+
+(* ---- non-vacuity: a concrete statement parser that satisfies the four locality
+        conditions (statements are single tokens > 2; 0 = newline, 1 = semicolon,
+        2 = a continuation token), so parse_concat applies to it unconditionally ---- *)
+Definition one_tok (ts : list nat) : sres nat nat unit :=
+  match ts with
+  | t :: r => if Nat.leb t 2 then SErr nat nat unit tt else SOk nat nat unit t r
+  | [] => SErr nat nat unit tt
+  end.
+
+Lemma one_tok_inv : forall ts s rest, one_tok ts = SOk nat nat unit s rest -> ts = s :: rest /\ 2 < s.
+Proof.
+  intros [|t r] s rest H; cbn in H; [discriminate|].
+  destruct (Nat.leb t 2) eqn:E; [discriminate|]. inversion H; subst.
+  split; [reflexivity|]. apply Nat.leb_gt in E. exact E.
+Qed.
+
+Theorem one_tok_parse_concat :
+  forall semi_skips, semi_skips = true ->
+  forall ta tb la lb,
+    parse nat (Nat.eqb 0) (Nat.eqb 1) semi_skips nat unit one_tok tt ta = POk nat unit la ->
+    parse nat (Nat.eqb 0) (Nat.eqb 1) semi_skips nat unit one_tok tt tb = POk nat unit lb ->
+    parse nat (Nat.eqb 0) (Nat.eqb 1) semi_skips nat unit one_tok tt (ta ++ 0 :: tb) = POk nat unit (la ++ lb).
+Proof.
+  intros semi_skips Hs.
+  apply (parse_concat nat (Nat.eqb 0) (Nat.eqb 1) (Nat.eqb 2) semi_skips 0 eq_refl nat unit one_tok tt).
+  - intros ts s rest H. apply one_tok_inv in H. destruct H as [-> _]. cbn. lia.
+  - intros ts s rest t H _ X. apply one_tok_inv in H. destruct H as [-> H2]. cbn.
+    destruct (Nat.leb s 2) eqn:E; [apply Nat.leb_le in E; lia | reflexivity].
+  - intros ts s rest X H _ _. apply one_tok_inv in H. destruct H as [-> H2]. cbn.
+    destruct (Nat.leb s 2) eqn:E; [apply Nat.leb_le in E; lia | reflexivity].
+  - intros t r s rest H. apply one_tok_inv in H. destruct H as [E H2]. inversion E; subst.
+    unfold sep. destruct s as [|[|[|s]]]; try lia. split; reflexivity.
+  - exact Hs.
+Qed.
